@@ -153,6 +153,38 @@ class RegionMonitor:
                 self.violations.append({"kind": kind, "from": pc, "to": new, "from_scope": a, "to_scope": b})
 
 
-def bad_returns(m):
-    """return events whose target is not the instruction after the call being served"""
-    return [e for e in m.ret_events if e[2] is not None and e[1] != e[2]] + [e for e in m.ret_events if e[2] is None]
+def function_entries(recmap):
+    """line index of the first instruction of every emitted function"""
+    first = {}
+    for i in sorted(recmap):
+        reg = recmap[i].get("region") or ""
+        if reg and reg not in first:
+            first[reg] = i
+    return first
+
+
+def entry_line(m, recmap, line):
+    """does a call to `line` enter an emitted function (as opposed to an internal subroutine)?"""
+    entries = set(function_entries(recmap).values())
+    if line in entries:
+        return True
+    # a label line directly in front of the entry
+    j = line
+    while j < len(m.lines) and (not m.lines[j] or (len(m.lines[j]) == 1 and m.lines[j][0].endswith(":"))):
+        j += 1
+    return j in entries
+
+
+def bad_returns(m, recmap=None):
+    """return events that do not land behind the call being served.  Frames of internal subroutines
+    (call target is not a function entry) may be skipped by a `return` inside a list-loop body."""
+    out = []
+    for e in m.ret_events:
+        if e[2] is None:
+            out.append(("C06:return-without-call", e))
+        elif e[1] != e[2]:
+            out.append(("C06:return-to-wrong-site", e))
+        elif e[8]:
+            if recmap is None or any(entry_line(m, recmap, t) for t in e[8]):
+                out.append(("C06:return-skips-a-function-frame", e))
+    return out
